@@ -260,12 +260,21 @@ DOC_FIXTURES = ["legacy_ms/headings.doc", "legacy_ms/Speech_Prime_Minister_of_Th
                 "legacy_ms/password_protected/doc-password-protected-pw123.doc"]
 
 
+DOC_MAGIC = {"w97": 0xA5EC, "w95": 0xA5DC}        # FibBase.wIdent values the reader accepts (Word 97-2003 / Word 6, 95)
+
+
 def build_doc(c, which=0):
-    tree = fixture_tree(DOC_FIXTURES[which])
+    """which 0..2: a repository fixture; 3: a generated document (mbv/writers/doc.py, read-only import)."""
+    if which < len(DOC_FIXTURES):
+        tree = fixture_tree(DOC_FIXTURES[which])
+    else:
+        from . import docrun
+        from .writers import doc as wdoc
+        tree = read_tree(wdoc.write_doc(docrun.flow_doc([["p", [["r", 1], ["tab"], ["r", 2]]], ["p", [["r", 3]]]])))
     wd = tree["WordDocument"]
     fl = struct.unpack_from("<H", wd, 0x0A)[0] & ~0x8100
     fl |= (0x0100 if c["fEncrypted"] else 0) | (0x8000 if c["fObfuscated"] else 0)
-    tree["WordDocument"] = wd[:0x0A] + struct.pack("<H", fl) + wd[0x0C:]
+    tree["WordDocument"] = struct.pack("<H", DOC_MAGIC[c["magic"]]) + wd[2:0x0A] + struct.pack("<H", fl) + wd[0x0C:]
     return write_cfb(tree)
 
 
@@ -276,7 +285,10 @@ def project_doc(data):
     if not isinstance(wd, bytes) or len(wd) < 12:
         return {"kind": "plain"}
     fl = struct.unpack_from("<H", wd, 0x0A)[0]
-    return {"kind": "doc", "fEncrypted": bool(fl & 0x0100), "fObfuscated": bool(fl & 0x8000)}
+    magic = {v: k for k, v in DOC_MAGIC.items()}.get(struct.unpack_from("<H", wd, 0)[0])
+    if magic is None:
+        return {"kind": "plain"}              # not a Word binary the reader accepts
+    return {"kind": "doc", "magic": magic, "fEncrypted": bool(fl & 0x0100), "fObfuscated": bool(fl & 0x8000)}
 
 
 # --------------------------------------------------------------------------- odf
@@ -332,19 +344,25 @@ def build_odf(c, fmt, rng):
             extra.append((real, _PNG if real.endswith(".png") else b"data"))
         ed_for[real] = ed_for.get(real, False) or e["ed"]
     all_names = names + [n for n, _ in extra]
-    ent = [f'<{p}:file-entry {p}:full-path="/" {p}:media-type="{mimetype}"/>']
+    ent = [f'<{p}:file-entry {p}:full-path="/" {p}:media-type="{mimetype}"/>' if c.get("order", "path-first") == "path-first"
+           else f'<{p}:file-entry {p}:media-type="{mimetype}" {p}:full-path="/"/>']
     for n in all_names:
         if n == "mimetype" or n.endswith("/"):
             continue
         mt = "text/xml" if n.endswith(".xml") else "image/png" if n.endswith(".png") else ""
+        attrs = (f'{p}:full-path="{n}" {p}:media-type="{mt}"' if c.get("order", "path-first") == "path-first"
+                 else f'{p}:media-type="{mt}" {p}:full-path="{n}"')
         if ed_for.get(n):
-            ent.append(f'<{p}:file-entry {p}:full-path="{n}" {p}:media-type="{mt}" {p}:size="77">{_enc_data(p)}</{p}:file-entry>')
+            ent.append(f'<{p}:file-entry {attrs} {p}:size="77">{_enc_data(p)}</{p}:file-entry>')
         else:
-            ent.append(f'<{p}:file-entry {p}:full-path="{n}" {p}:media-type="{mt}"/>')
-    encname = "UTF-8" if c["enc"] == "utf8" else "UTF-16"
-    text = (f'<?xml version="1.0" encoding="{encname}"?>\n<{p}:manifest xmlns:{p}="{MANIFEST_NS}" {p}:version="1.2">\n '
-            + "\n ".join(ent) + f"\n</{p}:manifest>")
-    man = text.encode("utf-8") if c["enc"] == "utf8" else text.encode("utf-16")
+            ent.append(f'<{p}:file-entry {attrs}/>')
+    encname, codec = ODF_ENCODINGS[c["enc"]]
+    doctype = {"none": "", "external": f'<!DOCTYPE {p}:manifest PUBLIC "-//OpenOffice.org//DTD Manifest 1.0//EN" "Manifest.dtd">\n',
+               "internal": f'<!DOCTYPE {p}:manifest [<!ENTITY c08 "generated">]>\n'}[c.get("doctype", "none")]
+    prolog = "<!-- written by the C08 harness --><?c08 keep=\"1\"?>\n" if c.get("prolog", "none") != "none" else ""
+    text = (f'<?xml version="1.0" encoding="{encname}"?>\n{prolog}{doctype}<{p}:manifest xmlns:{p}="{MANIFEST_NS}" '
+            f'{p}:version="1.2">\n ' + "\n ".join(ent) + f"\n</{p}:manifest>")
+    man = text.encode(codec)
     out = io.BytesIO()
     with zipfile.ZipFile(out, "w") as zo:
         for i, d in members:
@@ -355,14 +373,33 @@ def build_odf(c, fmt, rng):
     return out.getvalue()
 
 
+ODF_ENCODINGS = {"utf8": ("UTF-8", "utf-8"), "utf16": ("UTF-16", "utf-16"), "latin1": ("ISO-8859-1", "latin-1"),
+                 "sjis": ("Shift_JIS", "shift_jis")}
+
+
 def project_odf(data):
+    import re
     try:
         zf = zipfile.ZipFile(io.BytesIO(data))
         man = zf.read("META-INF/manifest.xml")
     except (zipfile.BadZipFile, KeyError):
         return {"kind": "plain"}
-    enc = "utf16" if man[:2] in (b"\xff\xfe", b"\xfe\xff") else "utf8"
-    root = ET.fromstring(man)
+    enc = "utf8"
+    if man[:2] in (b"\xff\xfe", b"\xfe\xff"):
+        enc = "utf16"
+    else:
+        d = re.match(rb"""<\?xml[^>]*encoding=["']([A-Za-z0-9._-]+)["']""", man)
+        name = d.group(1).decode().lower() if d else "utf-8"
+        enc = {"utf-8": "utf8", "iso-8859-1": "latin1", "latin1": "latin1", "shift_jis": "sjis"}.get(name, "utf8")
+    text = man.decode(ODF_ENCODINGS[enc][1], errors="replace")
+    # own transcoding to UTF-8 without declaration / DOCTYPE: the standard parser refuses multi-byte encodings
+    body = re.sub(r"^\s*<\?xml[^>]*\?>", "", text.lstrip("\ufeff"))
+    m_root = re.search(r"<[A-Za-z][\w.-]*:manifest[\s>]", body)
+    before = body[:m_root.start()] if m_root else ""
+    doctype = "none" if "<!DOCTYPE" not in before else ("internal" if "[" in before[before.index("<!DOCTYPE"):] else "external")
+    prolog = "comment-pi" if ("<!--" in before or "<?" in before) else "none"
+    clean = re.sub(r"<!DOCTYPE[^\[>]*(\[.*?\])?\s*>", "", body, count=1, flags=re.S)
+    root = ET.fromstring(clean.encode("utf-8"))
     entries = []
     for fe in root.iter("{%s}file-entry" % MANIFEST_NS):
         path = fe.get("{%s}full-path" % MANIFEST_NS) or ""
@@ -374,9 +411,11 @@ def project_odf(data):
             if sub in path:
                 tok = t
         entries.append({"name": tok, "ed": ed})
-    text = man.decode("utf-16" if enc == "utf16" else "utf-8", errors="replace")
     prefix = "manifest" if "<manifest:manifest" in text else "m"
-    return {"kind": "odf", "enc": enc, "prefix": prefix, "entries": entries}
+    fe = re.search(r"<[\w.-]+:file-entry\s+([\w.-]+):([\w-]+)=", body)
+    order = "type-first" if fe and fe.group(2) == "media-type" else "path-first"
+    return {"kind": "odf", "enc": enc, "prefix": prefix, "doctype": doctype, "prolog": prolog, "order": order,
+            "entries": entries}
 
 
 # --------------------------------------------------------------------------- pdf
@@ -393,11 +432,17 @@ def _pad_to(n, res):
     return n + ((res - n) % 16)
 
 
-def layout_pdf(c, seed=0):
+def _lit(raw: bytes) -> bytes:
+    return b"(" + raw.replace(b"\\", b"\\\\").replace(b"(", b"\\(").replace(b")", b"\\)") + b")"
+
+
+def layout_pdf(c, seed=0, handler=None):
     """Two-page PDF whose encrypted plaintexts have chosen lengths modulo the AES block size:
     every page content stream (raw, or Flate-compressed when c["flate"]) has len % 16 == c["slen"]; the strings
     /Info /Title, /Info /Author and a string in every page dictionary have len % 16 == c["strlen"].
-    Also carries one small Flate image (arbitrary length) so that image extraction is compared too."""
+    Also carries one small Flate image (arbitrary length) so that image extraction is compared too.
+    handler = None writes the unencrypted original; a c08_pdfcrypt.Handler writes the SAME objects with every
+    string and stream encrypted by that independent implementation (+ the /Encrypt dictionary)."""
     from .docmodel import word
     rng = random.Random(seed * 977 + 13)
     slen, strlen = c["slen"], c["strlen"]
@@ -406,7 +451,10 @@ def layout_pdf(c, seed=0):
         n = _pad_to(len(prefix) + 1, strlen)
         if n < 15:
             n += 16
-        return (prefix + " " + "x" * n)[:n].replace("(", "[").replace(")", "]")
+        raw = (prefix + " " + "x" * n)[:n].encode()
+        if len(raw) % 16 != strlen:
+            raise ValueError("c08 layout_pdf: string length")
+        return raw
 
     def content_stream(tokens_per_line):
         body = b"BT /F1 12 Tf 14 TL 72 760 Td\n" + b"".join(
@@ -421,39 +469,54 @@ def layout_pdf(c, seed=0):
                 return comp, b" /Filter /FlateDecode"
         raise ValueError("c08 layout_pdf: no Flate length with residue %d" % slen)
 
+    def S(num, raw):                                 # a string inside object `num`
+        return _lit(raw) if handler is None else b"<" + handler.string(num, raw).hex().encode() + b">"
+
+    def stream_obj(num, dict_body, raw):
+        data = raw if handler is None else handler.stream(num, raw)
+        return b"<< " + dict_body + b" /Length %d >>\nstream\n" % len(data) + data + b"\nendstream"
+
     pages_tokens = [[[1, 2], [3]], [[4]]]
     objs = []
 
-    def add(b):
-        objs.append(b)
-        return len(objs)
-    font = add(b"<< /Type /Font /Subtype /Type1 /BaseFont /Helvetica /Encoding /WinAnsiEncoding >>")
-    pages_id = add(b"")
+    def add(fn):
+        objs.append(b"")
+        num = len(objs)
+        objs[num - 1] = fn(num)
+        return num
+    font = add(lambda n: b"<< /Type /Font /Subtype /Type1 /BaseFont /Helvetica /Encoding /WinAnsiEncoding >>")
+    pages_id = add(lambda n: b"")
     img = zlib.compress(bytes(rng.getrandbits(8) for _ in range(6 * 5 * 3)))
-    img_id = add(b"<< /Type /XObject /Subtype /Image /Width 6 /Height 5 /ColorSpace /DeviceRGB /BitsPerComponent 8 "
-                 b"/Filter /FlateDecode /Length %d >>\nstream\n" % len(img) + img + b"\nendstream")
+    img_id = add(lambda n: stream_obj(n, b"/Type /XObject /Subtype /Image /Width 6 /Height 5 /ColorSpace /DeviceRGB "
+                                         b"/BitsPerComponent 8 /Filter /FlateDecode", img))
     kids = []
-    for n, toks in enumerate(pages_tokens, start=1):
+    for pn, toks in enumerate(pages_tokens, start=1):
         data, flt = content_stream(toks)
-        cid = add(b"<< /Length %d%s >>\nstream\n" % (len(data), flt) + data + b"\nendstream")
-        note = string_of("C08 page %d note" % n).encode()
-        kids.append(add(b"<< /Type /Page /Parent %d 0 R /MediaBox [0 0 612 792] /Contents %d 0 R /C08Note (%s) "
-                        b"/Resources << /Font << /F1 %d 0 R >> /XObject << /Im1 %d 0 R >> >> >>"
-                        % (pages_id, cid, note, font, img_id)))
+        if len(data) % 16 != slen:
+            raise ValueError("c08 layout_pdf: stream length")
+        cid = add(lambda n: stream_obj(n, flt.strip() or b"/C08 true", data))
+        kids.append(add(lambda n: b"<< /Type /Page /Parent %d 0 R /MediaBox [0 0 612 792] /Contents %d 0 R /C08Note %s "
+                                  b"/Resources << /Font << /F1 %d 0 R >> /XObject << /Im1 %d 0 R >> >> >>"
+                                  % (pages_id, cid, S(n, string_of("C08 page %d note" % pn)), font, img_id)))
     objs[pages_id - 1] = b"<< /Type /Pages /Count %d /Kids [%s] >>" % (len(kids), b" ".join(b"%d 0 R" % k for k in kids))
-    info = add(b"<< /Title (%s) /Author (%s) >>" % (string_of("C08 title").encode(), string_of("Au Thor").encode()))
-    cat = add(b"<< /Type /Catalog /Pages %d 0 R >>" % pages_id)
-    out = bytearray(b"%PDF-1.6\n%\xe2\xe3\xcf\xd3\n")
+    info = add(lambda n: b"<< /Title %s /Author %s >>" % (S(n, string_of("C08 title")), S(n, string_of("Au Thor"))))
+    cat = add(lambda n: b"<< /Type /Catalog /Pages %d 0 R >>" % pages_id)
+    enc = add(lambda n: handler.encrypt_dict()) if handler is not None else None
+    out = bytearray(b"%PDF-1.7\n%\xe2\xe3\xcf\xd3\n")
     offs = []
     for n, body in enumerate(objs, start=1):
         offs.append(len(out))
         out += b"%d 0 obj\n" % n + body + b"\nendobj\n"
     xref = len(out)
     out += b"xref\n0 %d\n0000000000 65535 f \n" % (len(objs) + 1) + b"".join(b"%010d 00000 n \n" % o for o in offs)
-    did = hashlib.md5(b"c08-%d" % seed).hexdigest().encode()
-    out += (b"trailer\n<< /Size %d /Root %d 0 R /Info %d 0 R /ID [<%s> <%s>] >>\nstartxref\n%d\n%%%%EOF\n"
-            % (len(objs) + 1, cat, info, did, did, xref))
+    did = pdf_doc_id(seed).hex().encode()
+    out += (b"trailer\n<< /Size %d /Root %d 0 R /Info %d 0 R /ID [<%s> <%s>]%s >>\nstartxref\n%d\n%%%%EOF\n"
+            % (len(objs) + 1, cat, info, did, did, (b" /Encrypt %d 0 R" % enc) if enc else b"", xref))
     return bytes(out)
+
+
+def pdf_doc_id(seed):
+    return hashlib.md5(b"c08-%d" % seed).digest()
 
 
 def plain_pdf_for(c, seed=0):
@@ -461,43 +524,19 @@ def plain_pdf_for(c, seed=0):
     return layout_pdf(c, seed)
 
 
-def _check_layout(writer, c):
-    """Harness self-check on the writer's object graph (what pypdf is about to encrypt): plaintext lengths."""
-    for pg in writer.pages:
-        st = pg.raw_get("/Contents").get_object()
-        if len(st._data) % 16 != c["slen"]:
-            raise ValueError(f"c08 pdf builder: content stream plaintext {len(st._data)} bytes, wanted residue {c['slen']}")
-        if ("/Filter" in st) != bool(c["flate"]):
-            raise ValueError("c08 pdf builder: /Filter of the content stream lost or invented")
-        note = pg["/C08Note"]
-        if len(note.get_original_bytes()) % 16 != c["strlen"]:
-            raise ValueError(f"c08 pdf builder: page string {len(note.get_original_bytes())} bytes, wanted residue {c['strlen']}")
-    info = writer._info.get_object() if getattr(writer, "_info", None) is not None else None
-    if info is None or "/Title" not in info or len(info["/Title"].get_original_bytes()) % 16 != c["strlen"]:
-        raise ValueError("c08 pdf builder: /Info /Title not carried over with the wanted length")
-
-
-def build_pdf(c, rng, plain):
-    """Needs patch_pypdf_fallback_aes() for the AES algorithms: call only in a builder process."""
+def build_pdf(c, rng, plain=None, seed=0):
+    """The encrypted twin of plain_pdf_for(c, seed): same objects, strings and streams encrypted by the independent
+    implementation mbv/c08_pdfcrypt.py (own AES checked against FIPS-197 / SP 800-38A vectors, own RC4, hashlib) --
+    neither pypdf nor the library's AES fallback takes part, so a defect in the code under test cannot round-trip."""
     if c["alg"] == "none":
-        return plain
-    from pypdf import PdfReader, PdfWriter
-    w = PdfWriter(clone_from=PdfReader(io.BytesIO(plain)))      # whole document: pages, /Info, custom page keys
-    _check_layout(w, c)
+        return plain if plain is not None else layout_pdf(c, seed)
+    from .c08_pdfcrypt import Handler
     user = "" if c["userEmpty"] else rng.choice(["u", "pw123", "pässwörd", "x" * 40])
-    if c["owner"] == "same":          # equal to the user password: given explicitly, or left to the writer (None)
+    if c["owner"] == "same":          # equal to the user password: given explicitly, or no owner password at all
         owner = rng.choice([user, None])
     else:
         owner = rng.choice(["owner", "o" * 33, "s3cret"])
-    w.encrypt(user_password=user, owner_password=owner, algorithm=c["alg"])
-    b = io.BytesIO()
-    w.write(b)
-    data = b.getvalue()
-    # harness self-check (pypdf as a tool): the user password opens the file as owner exactly when owner = "same"
-    got = int(PdfReader(io.BytesIO(data)).decrypt(user))
-    if got != (2 if c["owner"] == "same" else 1):
-        raise ValueError(f"c08 pdf builder: {c} written with user={user!r} owner={owner!r} opens as {got}")
-    return data
+    return layout_pdf(c, seed, Handler(c["alg"], user, owner, pdf_doc_id(seed), rng))
 
 
 # plaintext lengths are not visible in an encrypted file; a fixture gets the neutral layout (no part in Class)
@@ -505,24 +544,30 @@ _FIXTURE_LAYOUT = {"flate": False, "slen": 1, "strlen": 1}
 
 
 def project_pdf(data, user_empty=None):
-    from pypdf import PdfReader
-    import logging
-    logging.getLogger("pypdf").setLevel(logging.ERROR)
-    try:
-        r = PdfReader(io.BytesIO(data))
-        e = r.trailer.get("/Encrypt")
-    except Exception:
+    """Reads the /Encrypt dictionary straight from the bytes (no PDF library: pypdf cannot even open an AES-256
+    file without an AES provider)."""
+    import re
+    if not data.lstrip()[:5] == b"%PDF-":
         return {"kind": "plain"}
-    if e is None:
+    m = None
+    for m in re.finditer(rb"/Encrypt\s*(?:(\d+)\s+(\d+)\s+R|<<)", data):
+        pass                                                     # the last trailer wins
+    if m is None:
         return {"kind": "pdf", "alg": "none", "userEmpty": True, "owner": "same", **_FIXTURE_LAYOUT}
-    e = e.get_object()
-    v, rev, ln = int(e.get("/V", 0)), int(e.get("/R", 0)), int(e.get("/Length", 40))
+    if m.group(1):
+        o = re.search(rb"(?<!\d)%d\s+%d\s+obj(.*?)endobj" % (int(m.group(1)), int(m.group(2))), data, re.S)
+        e = o.group(1) if o else b""
+    else:
+        e = data[m.end():m.end() + 2000]
+
+    def num(key, default):
+        k = re.search(rb"/" + key + rb"\s+(-?\d+)", e)
+        return int(k.group(1)) if k else default
+    v, rev, ln = num(b"V", 0), num(b"R", 0), num(b"Length", 40)
     if v in (1, 2) and rev in (2, 3):
         alg = "RC4-40" if ln <= 40 else "RC4-128"
     elif v == 4:
-        cf = e.get("/CF", {})
-        cfm = str((cf.get(e.get("/StmF", "/StdCF")) or {}).get("/CFM", "/V2")) if cf else "/V2"
-        alg = "AES-128" if cfm == "/AESV2" else "RC4-128"
+        alg = "AES-128" if b"/AESV2" in e else "RC4-128"
     elif v == 5:
         alg = "AES-256-R5" if rev == 5 else "AES-256"
     else:
@@ -939,9 +984,9 @@ def signature(c):
             recs = recs[:recs.index("OVR") + 1]
         return (k, c["stream"], tuple(recs))
     if k == "doc":
-        return (k, c["fEncrypted"], c["fObfuscated"])
+        return (k, c["magic"], c["fEncrypted"], c["fObfuscated"])
     if k == "odf":
-        return (k, c["enc"], c["prefix"], tuple(sorted({e["name"] for e in c["entries"] if e["name"] != "content.xml"})),
+        return (k, c["enc"], c["prefix"], c["doctype"], c["prolog"], c["order"], tuple(sorted({e["name"] for e in c["entries"] if e["name"] != "content.xml"})),
                 sum(1 for e in c["entries"] if e["ed"]) > 0)
     if k == "pdf":
         return (k, c["alg"])
